@@ -860,7 +860,8 @@ def find_external_type(file_ast: FortranAST, desc_string: str, name: str) -> boo
     counter = 0
     # Definition without EXTERNAL has already been parsed
     for v in file_ast.variable_list:
-        if name == v.name:
+        # Fortran names are case insensitive
+        if name.lower() == v.name.lower():
             # If variable is already in external objs it has
             # been parsed correctly so exit
             if v in file_ast.external_objs:
@@ -897,7 +898,7 @@ def find_external_attr(file_ast: FortranAST, name: str, new_var: Variable) -> bo
     """
     counter = 0
     for v in file_ast.external_objs:
-        if v.name != name:
+        if v.name.lower() != name.lower():
             continue
         if v.desc.upper() != "EXTERNAL":
             continue
